@@ -30,10 +30,9 @@ ASSUMPTIONS = [
     'FermiHubbardModel parameters are valid (constructor ValueErrors are not explored)',
 ]
 OPEN_STATEMENTS = [
-    'hubbard_sound is proved for the spinless and spinful fermi_hubbard and for the bose_hubbard Model for ALL lattice sizes (spinless_hubbard_sound / spinless_hubbard_sound_edges / spinless_hubbard_sound_spec [matrix elements of the Spec action, no hypothesis on the functional] / spinful_hubbard_sound + spin_site_terms / bose_hubbard_sound: den phi of the site-loop fold = docstring formula summed over the Spec edge set) under the hypotheses ExactSum (every += in the exact regime; holds for the generated dyadic couplings, checked by the correspondence run, not proved in general), real hopping amplitude, phi(n_i n_j) = phi(n_j n_i) (spinless only, discharged for the Spec matrix elements; the spinful and bose theorems hold for every phi); mean_field_dwave, FermiHubbardModel and the particle-hole docstring form are still covered by the docstring / spec.eq oracles only; also proved for all sizes: the bond enumerations equal the Spec edge set, every generated term has zero charge for N (and S_z where conserved) and zero-charge terms preserve the Spec weight of basis states, the grid index bijection',
+    'hubbard_sound is proved for the spinless and spinful fermi_hubbard and for the bose_hubbard Model for ALL lattice sizes (spinless_hubbard_sound / spinless_hubbard_sound_edges / spinless_hubbard_sound_spec [matrix elements of the Spec action, no hypothesis on the functional] / spinful_hubbard_sound + spin_site_terms / bose_hubbard_sound: den phi of the site-loop fold = docstring formula summed over the Spec edge set) under the hypotheses ExactSum (every += in the exact regime; DISCHARGED for couplings on a grid (1/D) Z[i] with tol * D <= 1, i.e. all generated dyadic couplings: exact_regime_of_grid, spinless_hubbard_sound_spec_grid, spinful_hubbard_sound_grid have no += hypothesis left; with tol * 4D <= 1 also the particle-hole form and bose_hubbard: hubbard_exact_regime_of_grid, bose_hubbard_sound_grid, spinful_hubbard_sound_grid_phs), real hopping amplitude, phi(n_i n_j) = phi(n_j n_i) (spinless only, discharged for the Spec matrix elements; the spinful and bose theorems hold for every phi); mean_field_dwave, FermiHubbardModel and the particle-hole docstring form are still covered by the docstring / spec.eq oracles only; also proved for all sizes: the bond enumerations equal the Spec edge set, every generated term has zero charge for N (and S_z where conserved) and zero-charge terms preserve the Spec weight of basis states, the grid index bijection, all_points_indices = the tuples inside the grid each once with orbital_id a bijection onto range(num_points) (all_points_spec, all_points_orbital_bijection), one number operator per orbital in the spinless plane_wave_kinetic loop (plane_wave_kinetic_structure_spec)',
     'hermitian_generators is proved for the spinless and the spinful fermi_hubbard Model (spinless_hubbard_hermitian, spinful_hubbard_hermitian on Spec matrix elements, same hypotheses as hubbard_sound, real t / U / mu); for the other generators it is covered by the spec.eq / dictionary oracles only',
-    'onsite edge type and spin_pairs_iter: correspondence + Spec oracle only',
-    'bose_hubbard / mean_field_dwave / FermiHubbardModel: S_z conservation of FermiHubbardModel is covered by the spec.eq oracle only',
+    'onsite edge type and spin_pairs_iter: proved (site_pairs_onsite_spec, spin_pairs_spec); S_z and N_up / N_down conservation of FermiHubbardModel on spinful lattices: proved for every parameter set (fermi_hubbard_model_conserves_spin_resolved / _sz / _spin_species / fermi_hubbard_model_preserves_sz)',
     'su2_relations for all n: oracle only (n <= 3)',
     'RichardsonGaudin: richardson_gaudin_documented proves the documented form for every n under ExactRG (exact regime of every + / sum step; not discharged in general, it holds for the dyadic g generated); get_antisymmetrized_tensors is not covered',
     'fourier_transform_unitary_structure / isospectrality: numeric oracle only',
@@ -1428,7 +1427,8 @@ def stream_planewave(ctx):
                'hypercube_grid_with_given_wigner_seitz_radius_and_filling; float comparisons at 1e-9')
     rng = rng_for(ctx.seed, 'c13-pw')
     pi = math.pi
-    grids = [([2], 1.5), ([3], 1.5), ([4], 1.1), ([2, 2], 1.0), ([2, 2], [[1.3, 0.5], [0.0, 0.9]]), ([3], 1.0e5), ([2, 2], 2.0e3)]
+    grids = [([2], 1.5), ([3], 1.5), ([4], 1.1), ([2, 2], 1.0), ([2, 2], 1.7), ([2, 2], [[1.3, 0.5], [0.0, 0.9]]), ([3], 1.0e5),
+             ([2, 2], 2.0e3)]
     if ctx.tier == 'thorough' or ctx.drift:
         grids += [([5], 1.1), ([3, 2], 1.25), ([3, 3], 2.0)]
     for L, scale in grids:
@@ -1586,8 +1586,16 @@ def stream_planewave(ctx):
             cuts = [None] + [(a + b) / 2 for a, b in zip(k2s, k2s[1:])][:3] + [k2s[-1] + 1.0]
             for e_cut in cuts:
                 R0 = V ** (1.0 / dim)
-                for nonper, pcut in ((False, None), (True, None), (True, 0.7), (True, R0), (True, 0.5 * R0), (True, 2.0 * R0), (False, 0.5 * R0)):
-                    cc = dict(c, e_cutoff=e_cut, non_periodic=nonper, period_cutoff=pcut)
+                # boundary values of the explicit cut-off: exactly zero (float, int, numpy scalar) and a tiny positive value are
+                # admissible cut-offs, NOT "use the default": the truncated-Coulomb factor 1 - cos(0 |k|) vanishes
+                degenerate = ((True, 0.0), (True, 0), (True, numpy.float64(0.0)), (True, 1e-12), (False, 0.0), (False, 0))
+                for nonper, pcut in ((False, None), (True, None), (True, 0.7), (True, R0), (True, 0.5 * R0), (True, 2.0 * R0),
+                                     (False, 0.5 * R0)) + degenerate:
+                    if (nonper, pcut) in degenerate and pcut is not None and float(pcut) < 1e-6 and e_cut is not None \
+                            and e_cut != cuts[1]:
+                        continue
+                    cc = dict(c, e_cutoff=e_cut, non_periodic=nonper, period_cutoff=float(pcut) if pcut is not None else None,
+                              period_cutoff_type=type(pcut).__name__)
                     s.count('oracle:cutoffs')
                     Rc = pcut if pcut is not None else V ** (1.0 / dim)
                     ek, ep = {}, {(): 0.0}
